@@ -276,20 +276,10 @@ SONG_OPTIONS = {'m_trackSolo', 'm_trackDisable', 'm_channelDisable'}
 PER_BANK_OVERRIDES = {'VolumeModel', 'lfoEnable', 'lfoFrequency', 'chipType'}      # named by the property
 
 
-def analyse(facts, tier):
+def r2_obligations(facts, mut):
+    """no-clobber obligations (also used by C09.R3 for the loop-hook slots)"""
     obls = []
-    mut = Mutation(facts)
     exp = exported(facts)
-    if len(exp) < 60:
-        raise build.AnalysisBroken('C18: only %d exported opn2_* functions found' % len(exp))
-
-    # ---- R1
-    for fn in sorted(exp, key=lambda f: f.name):
-        if not fn.d['ret'].get('w') or fn.d['ret'].get('bool') or fn.name in LOADERS:
-            continue
-        r1_function(facts, mut, fn, obls, 'C18.R1', fn.name, set())
-
-    # ---- R2
     owned, helper = setter_owned(facts, mut)
     clobber_roots = [f for f in exp if f.name in ('opn2_reset', 'opn2_switchEmulator', 'opn2_openBankFile', 'opn2_openBankData', 'opn2_openFile',
                                                   'opn2_openData', 'opn2_setNumChips', 'opn2_setRunAtPcmRate', 'opn2_setChipType', 'opn2_rt_resetState',
@@ -363,6 +353,25 @@ def analyse(facts, tier):
                         obls.append(Obl('C18.R2', fn.name, 'call ' + show(c)[:60], st['loc'], 'discharged' if ok else 'finding',
                                         why='argument derives from the requested setting' if ok else 'setter helper called on a reset/load path with a value not derived from m_setup/hooks',
                                         detail={'fields': sorted(short(x) for x in fields), 'reached_from': via}))
+
+    return obls
+
+
+def analyse(facts, tier):
+    obls = []
+    mut = Mutation(facts)
+    exp = exported(facts)
+    if len(exp) < 60:
+        raise build.AnalysisBroken('C18: only %d exported opn2_* functions found' % len(exp))
+
+    # ---- R1
+    for fn in sorted(exp, key=lambda f: f.name):
+        if not fn.d['ret'].get('w') or fn.d['ret'].get('bool') or fn.name in LOADERS:
+            continue
+        r1_function(facts, mut, fn, obls, 'C18.R1', fn.name, set())
+
+    # ---- R2
+    obls += r2_obligations(facts, mut)
 
     # ---- R3 getter/setter pairs
     getters = {f.name: f for f in exp if f.name.startswith('opn2_get')}
